@@ -16,7 +16,7 @@ CLASSES_FOR = {
             'CatchExceptionDataset'],
     'C02': ['IntersperseDataset', 'NumpySerializedList', 'CacheDataset', 'ListDataset', 'DictDataset', 'MapDataset', 'SliceDataset', 'ConcatenateDataset', 'ZipDataset',
             'KeyZipDataset', 'ItemsDataset', 'BatchDataset'],
-    'C03': ['IntersperseDataset', 'DictDataset', 'MapDataset', 'SliceDataset', 'ConcatenateDataset', 'KeyZipDataset', 'ItemsDataset',
+    'C03': ['IntersperseDataset', 'CacheDataset', 'DictDataset', 'MapDataset', 'SliceDataset', 'ConcatenateDataset', 'KeyZipDataset', 'ItemsDataset',
             'FilterDataset', 'CatchExceptionDataset'],
     'C14': ['FilterDataset', 'CatchExceptionDataset'],
     # the stages the algebraic laws rest on
@@ -167,7 +167,8 @@ EXTRA_MORE = {
     'C11': [('bounded-diskcache-kill-points', _mk('diskcache_kill_points', 'a forked child populating 12 examples is killed (SIGKILL) after 0, 20, 50, 90 ms (0..150 ms in 10 ms steps); reopen with reuse=True: all values correct, stored ones not recomputed')),
             ('bounded-diskcache-lifecycles', _mk('diskcache_lifecycles', 'cache_dir given / None x clear x {copy outlives original, original outlives copy, no copy} x {0, 2, all of 4 examples read}; release by garbage collection; reopen with reuse=False (refused) and reuse=True (no recomputation)'))],
     'C13': [('bounded-prefetch-determinism', _mk('parallel_equals_sequential', 'as for C04: seeded per-epoch reshuffles below prefetch / parallel map reproduce the sequential epochs'))],
-    'C09': [('bounded-isolation-more', _mk('isolation_more', 'example shapes dict / tuple / namedtuple / list with mutable parts; pickle, copy, wu, memory and disk cache; mutation inside a running first-epoch loop, over items(), through a copy, after an aborted epoch, after the next example was requested; re-read by iteration, index, copy')),
+    'C09': [('bounded-snapshot-isolation', _mk('snapshot_isolation', 'from_dataset / new(src) / cache(lazy=False) of dict- and list-backed sources stored in pickle, copy, wu mode: isolated from later mutation of the original objects and of handed-out examples')),
+            ('bounded-isolation-more', _mk('isolation_more', 'example shapes dict / tuple / namedtuple / list with mutable parts; pickle, copy, wu, memory and disk cache; mutation inside a running first-epoch loop, over items(), through a copy, after an aborted epoch, after the next example was requested; re-read by iteration, index, copy')),
             ('bounded-isolation', _mk('isolation', 'new/from_list in pickle, copy, wu mode and memory/disk cache; 7 access paths, miss and hit, nested in-place mutations'))],
     'C10': [('bounded-cache-histories', _mk('cache_histories', 'all access histories of length 2 (3 thorough) over 17 operations on a 4-example cache with a freshly random upstream; memory threshold crossed after 0..4 stores'))],
     'C14': [('bounded-catch', _mk('catch_epochs', 'sources of 0..7 examples, all failing subsets up to size 3, single type / tuple / subclass, values and items, two epochs, reshuffled upstream over 4 epochs, lazy/eager/FilterException selection'))],
